@@ -242,17 +242,17 @@ static void h_pump_common(int splice_mode)
 	__CPROVER_assert(IMPLIES(g_writes > 0, wr_done && g_writes == verif_in.wr_eintr + 1), "[C15] an interrupted write is retried until it gives a result");
 	__CPROVER_assert(IFF(g_writes > 0, !rd_err && bytes0 + g_read_n > 0), "[C17] output is attempted exactly when data is buffered");
 	__CPROVER_assert(IFF(r == -1, rd_err || wr_err), "[C17] -1 exactly on an I/O error (a would-block condition or an interrupted call is not an error)");
-	__CPROVER_assert(v_pump.bytes == bytes0 + g_read_n - g_write_n, "[C17] conservation: buffered = previously buffered + read - written (no byte lost or duplicated)");
+	__CPROVER_assert(v_pump.bytes == bytes0 + g_read_n - g_write_n, "[C17,C15] conservation: buffered = previously buffered + read - written (no byte lost or duplicated)");
 	if (r >= 0) {
-		__CPROVER_assert(splice_mode ? RI_SPLICE(&v_pump) : (RI_RW(&v_pump) || (v_pump.buf == NULL && v_pump.bytes == 0)), "[C17] the pump state stays well formed");
-		__CPROVER_assert(IFF(r == 0, v_pump.saw_fin == 2), "[C17] returns 0 exactly from the moment end-of-file has been relayed, 1 while more remains");
-		__CPROVER_assert(v_pump.saw_fin >= fin0 && IFF(v_pump.saw_fin >= 1, fin_seen), "[C17] end-of-file is noted when the input reports it and never forgotten");
-		__CPROVER_assert(IFF(v_pump.saw_fin == 2, fin_seen && v_pump.bytes == 0), "[C17] end-of-file is relayed as soon as, and only after, all buffered data has been delivered");
+		__CPROVER_assert(splice_mode ? RI_SPLICE(&v_pump) : (RI_RW(&v_pump) || (v_pump.buf == NULL && v_pump.bytes == 0)), "[C17,C15] the pump state stays well formed");
+		__CPROVER_assert(IFF(r == 0, v_pump.saw_fin == 2), "[C17,C15] returns 0 exactly from the moment end-of-file has been relayed, 1 while more remains");
+		__CPROVER_assert(v_pump.saw_fin >= fin0 && IFF(v_pump.saw_fin >= 1, fin_seen), "[C17,C15] end-of-file is noted when the input reports it and never forgotten");
+		__CPROVER_assert(IFF(v_pump.saw_fin == 2, fin_seen && v_pump.bytes == 0), "[C17,C15] end-of-file is relayed as soon as, and only after, all buffered data has been delivered");
 		__CPROVER_assert(g_setbands == 1, "[C17] the wanted bands are reported once per pump call");
-		__CPROVER_assert(IFF(g_sb_in, v_pump.saw_fin == 0 && !v_pump.full), "[C17] input is requested exactly while buffer space remains and no end-of-file was seen");
+		__CPROVER_assert(IFF(g_sb_in, v_pump.saw_fin == 0 && !v_pump.full), "[C17,C15] input is requested exactly while buffer space remains and no end-of-file was seen");
 		__CPROVER_assert(IFF(g_sb_out, v_pump.bytes > 0), "[C17] output is requested exactly while data is buffered");
 		if (!splice_mode)
-			__CPROVER_assert(IFF(v_pump.full, v_pump.bytes == BUF_SIZE), "[C17] full means no buffer space");
+			__CPROVER_assert(IFF(v_pump.full, v_pump.bytes == BUF_SIZE), "[C17,C15] full means no buffer space");
 	}
 	__CPROVER_assert(g_shutdowns == ((verif_in.relay_eof && v_pump.saw_fin == 2 && fin0 != 2) ? 1 : 0), "[C17] the output is shut down exactly once, when end-of-file is relayed, iff the caller asked for it");
 	if (!splice_mode)
